@@ -42,6 +42,47 @@ def sample_symbols():
     ]
 
 
+def name_mangled(raw: str, printed: str):
+    """Specification predicate for 'symbols appear under their LaTeX display names': the printed name may differ from
+    the declared display_latex only by benign normalisation (braces around a sub/superscript, Greek-name translation).
+    Returns a reason when the printed name is NOT such a normalisation."""
+    import re  # pylint: disable=import-outside-toplevel
+    from sympy.printing.latex import tex_greek_dictionary, greek_letters_set  # pylint: disable=import-outside-toplevel
+    if printed == raw:
+        return None
+    # (a) a brace group must not cut through a parenthesis of the declared name
+    depth_stack = []
+    for ch in printed:
+        if ch == "{":
+            depth_stack.append(0)
+        elif ch == "}":
+            if not depth_stack:
+                return "unbalanced brace in printed name"
+            if depth_stack.pop() != 0:
+                return "a brace group of the printed name cuts through a parenthesis"
+        elif ch in "([" and depth_stack:
+            depth_stack[-1] += 1
+        elif ch in ")]" and depth_stack:
+            depth_stack[-1] -= 1
+            if depth_stack[-1] < 0:
+                return "a brace group of the printed name cuts through a parenthesis"
+    # (b) no control word appears that the declared name does not contain (up to Greek translation)
+    allowed = set(re.findall(r"\\[A-Za-z]+", raw))
+    for w in re.findall(r"[A-Za-z]+", raw):
+        if w in greek_letters_set or w.lower() in greek_letters_set:
+            allowed.add("\\" + w)
+        if w in tex_greek_dictionary:
+            allowed.add(tex_greek_dictionary[w])
+    for cw in re.findall(r"\\[A-Za-z]+", printed):
+        if cw not in allowed:
+            return f"control word {cw} does not occur in the declared name"
+    # (c) apart from braces the characters are the declared ones
+    strip = lambda t: re.sub(r"[{}\\ ]", "", t)
+    if strip(printed) != strip(raw) and not any(w in greek_letters_set for w in re.findall(r"[A-Za-z]+", raw)):
+        return "characters of the declared name were changed"
+    return None
+
+
 class TexReader(rc.Reader):
     """reference reading for LaTeX: special constructs are outside the reader's grammar"""
 
@@ -69,9 +110,16 @@ def make_case(key, origin, expr, vkey, **extra):
         c["sides"] = rd.read_top(expr)
         c["special"] = sorted(rd.special)
         c["collisions"] = rd.collisions()
-        c["names"] = sorted(rd.names, key=lambda n: (-len(n), n))
+        names = set(rd.names)
+        names.add("e")          # Euler's number is written e (identified with a symbol displayed as e, if any)
+        c["names"] = sorted(names, key=lambda n: (-len(n), n))
         c["assume"] = dict(rd.assume)
-        c["euler_ok"] = False
+        c["euler"] = "e"
+        c["mangled"] = []
+        for printed, raw in rd.raw_latex.items():
+            why = name_mangled(raw, printed)
+            if why:
+                c["mangled"].append((raw, printed, why))
     except rc.StructureOnly as e:
         c["sides"] = None
         c["reason"] = f"outside the reader's grammar: {e}"
@@ -131,6 +179,11 @@ def run(ctx):
 
     live = []
     for c in cases:
+        for raw, printed, why in c.get("mangled") or []:
+            ctx.violation(f"C18:name:{c['key']}:{raw}", f"symbol with display_latex {raw!r} is printed as {printed!r} in "
+                f"{c['key']} ({why})", {"kind": "violation", "item": c["key"], "origin": c["origin"], "display_latex": raw,
+                "printed_name": printed, "why": why, "rendering": c["s"], "original": str(c["expr"]),
+                "sample_index": c.get("sample_index")}, found_input=True)
         if c["s"] is None:
             ctx.violation(c["vkey"] or f"C18:{c['key']}", f"latex_str raises on {c['key']}: {c['render_error']}",
                 {"kind": "violation", "item": c["key"], "original": str(c["expr"]), "error": c["render_error"]}, True)
